@@ -271,6 +271,39 @@ Lemma nth_error_map' {A C} (f : A -> C) l i :
   nth_error (map f l) i = option_map f (nth_error l i).
 Proof. revert l; induction i; intros [|x l]; simpl; auto. Qed.
 
+(* ------------------------------------------------------------------ elements by an integer index *)
+
+Lemma nth_z_none {A} (l : list A) i : (i < 0 \/ Z.of_nat (length l) <= i)%Z -> nth_z l i = None.
+Proof.
+  intros H. unfold nth_z, in_range.
+  destruct (Z.leb_spec 0 i); destruct (Z.ltb_spec i (Z.of_nat (length l))); simpl; try reflexivity; lia.
+Qed.
+
+Lemma nth_z_some {A} (l : list A) i :
+  (0 <= i < Z.of_nat (length l))%Z -> nth_z l i = nth_error l (Z.to_nat i) /\ nth_z l i <> None.
+Proof.
+  intros H. unfold nth_z, in_range.
+  destruct (Z.leb_spec 0 i); destruct (Z.ltb_spec i (Z.of_nat (length l))); simpl; try lia.
+  split; [reflexivity|]. apply nth_error_Some. lia.
+Qed.
+
+Lemma nth_z_nil {A} i : nth_z (@nil A) i = None.
+Proof. apply nth_z_none. simpl. lia. Qed.
+
+Lemma nth_z_map {A C} (f : A -> C) l i : nth_z (map f l) i = option_map f (nth_z l i).
+Proof.
+  unfold nth_z. rewrite map_length. destruct (in_range i (length l)); [apply nth_error_map'|reflexivity].
+Qed.
+
+Lemma nth_z_nat {A} (l : list A) (n : nat) : nth_z l (Z.of_nat n) = nth_error l n.
+Proof.
+  unfold nth_z, in_range.
+  destruct (Z.leb_spec 0 (Z.of_nat n)); [|lia].
+  destruct (Z.ltb_spec (Z.of_nat n) (Z.of_nat (length l))); simpl.
+  - rewrite Nat2Z.id. reflexivity.
+  - symmetry. apply nth_error_None. lia.
+Qed.
+
 Definition reach (g : gv) (s : step) : val :=
   match go_step g s with Some g' => convert g' | None => VNil end.
 
@@ -287,7 +320,7 @@ Proof.
   - (* struct / map / nil map *)
     destruct (conv_table g Ho Ht) as [items Htab].
     pose proof Htab as [Hc [Hnd Hl]]. rewrite Hc.
-    destruct s as [n|k|i]; simpl in Hf, Hn.
+    destruct s as [n|k|c i]; simpl in Hf, Hn.
     + (* Field *)
       apply negb_true_iff in Hn.
       assert (Hgs : go_step g (Field n) = option_map member_value (go_member g n)).
@@ -306,17 +339,18 @@ Proof.
   - (* leaves, slices, nothing *)
     rewrite (conv_simple g Ho Hs).
     unfold kind_ok in Hk. unfold go_step.
-    destruct s as [n|k|i]; destruct (strip g) eqn:Es; simpl in Hs; try discriminate; simpl in *;
+    destruct s as [n|k|c i]; destruct (strip g) eqn:Es; simpl in Hs; try discriminate; simpl in *;
       try reflexivity.
     + (* Field on a string *) apply negb_true_iff in Hk. rewrite Hk. reflexivity.
-    + (* Idx on a nil slice *) destruct i; reflexivity.
-    + (* Idx on a slice *) rewrite nth_error_map'. destruct (nth_error l i); reflexivity.
+    + (* Idx out of range on a string *) apply negb_true_iff in Hk. unfold nth_z. rewrite Hk. reflexivity.
+    + (* Idx on a nil slice *) rewrite nth_z_nil. reflexivity.
+    + (* Idx on a slice *) rewrite nth_z_map. destruct (nth_z l i); reflexivity.
 Qed.
 
 (* ------------------------------------------------------------------ paths below the first name *)
 
 Lemma eval_nil p : eval_steps (Some VNil) p = ROk (Some VNil).
-Proof. induction p as [|[n|k|i] p IH]; simpl; auto. Qed.
+Proof. induction p as [|[n|k|c i] p IH]; simpl; auto. Qed.
 
 Lemma end_text g :
   opaque_free g = true -> end_ok g = true -> text_of (convert g) = Some (leaf_text (leaf_of g)).
@@ -582,7 +616,7 @@ Qed.
 Lemma eval_undefined rest :
   eval_steps None rest = ROk (if forallb is_field rest then None else Some VNil).
 Proof.
-  induction rest as [|[n|k|i] r IH]; simpl; auto; apply eval_nil.
+  induction rest as [|[n|k|c i] r IH]; simpl; auto; apply eval_nil.
 Qed.
 
 Lemma render_nil raw : render raw [] = [].
@@ -619,7 +653,7 @@ Proof.
   intros Hnm Hsh Hff Htm Hru.
   unfold names_ok in Hnm. apply andb_true_iff in Hnm. destruct Hnm as [Hnm Hres].
   apply andb_true_iff in Hnm. destruct Hnm as [_ Hnames].
-  destruct p as [|[n|k|i] rest]; try discriminate.
+  destruct p as [|[n|k|c i] rest]; try discriminate.
   apply negb_true_iff in Hres.
   assert (Hg : beqb n (B "global") = false).
   { unfold reserved_top in Hres. cbn [mem existsb] in Hres. apply orb_false_iff in Hres. tauto. }
@@ -724,8 +758,13 @@ Theorem absent_steps :
                    eval_step (Some (convert (GIface named GPtrNil))) s = ROk (Some VNil)) /\
   (* a missing key *)
   (forall l k, find_last k l = None -> eval_step (Some (convert (GMap l))) (Key k) = ROk (Some VNil)) /\
-  (* an index out of range *)
-  (forall l i, length l <= i -> eval_step (Some (convert (GSlice l))) (Idx i) = ROk (Some VNil)) /\
+  (* an index out of range: below 0 or at / above the length, written as a literal or computed; on a list, a nil
+     list, a string *)
+  (forall l c i, (i < 0 \/ Z.of_nat (length l) <= i)%Z ->
+                 eval_step (Some (convert (GSlice l))) (Idx c i) = ROk (Some VNil) /\ go_step (GSlice l) (Idx c i) = None) /\
+  (forall c i, eval_step (Some (convert GSliceNil)) (Idx c i) = ROk (Some VNil) /\ go_step GSliceNil (Idx c i) = None) /\
+  (forall s c i, (i < 0 \/ Z.of_nat (length s) <= i)%Z ->
+                 eval_step (Some (convert (GStr s))) (Idx c i) = ROk (Some VNil) /\ go_step (GStr s) (Idx c i) = None) /\
   (* a name that is no exported member (an unexported field in particular) and that folds onto none *)
   (forall g n, opaque_free g = true -> tabular (strip g) = true -> beqb n (B "__assign") = false ->
                go_member g n = None -> fold_hit g n = false ->
@@ -734,13 +773,14 @@ Theorem absent_steps :
   (* whatever follows prints nothing and is no error *)
   (forall p raw q, bind (eval_steps (Some VNil) p) (print_val raw q) = ROk []).
 Proof.
-  repeat split.
-  - destruct s; reflexivity.
-  - destruct s; reflexivity.
-  - destruct s; reflexivity.
+  split; [|split; [|split; [|split; [|split; [|split; [|split]]]]]].
+  - intros s named. split; [|split]; destruct s; reflexivity.
   - intros l k H. simpl. rewrite lookup_build, (find_last_map convert), H. reflexivity.
-  - intros l i H. simpl. rewrite nth_error_map'.
-    assert (Hn : nth_error l i = None) by (apply nth_error_None; exact H). rewrite Hn. reflexivity.
+  - intros l c i H. split.
+    + simpl. rewrite nth_z_map, (nth_z_none l i H). reflexivity.
+    + simpl. apply nth_z_none. exact H.
+  - intros c i. split; [simpl; rewrite nth_z_nil|]; reflexivity.
+  - intros s c i H. split; [simpl; rewrite (nth_z_none s i H)|]; reflexivity.
   - intros g n Ho Ht Ha Hm Hf. destruct (conv_table g Ho Ht) as [items Htab].
     pose proof Htab as [Hc _]. rewrite Hc. unfold eval_step.
     rewrite (field_table g n items Htab Ha Hf); [rewrite Hm; reflexivity|].
@@ -748,6 +788,37 @@ Proof.
   - intros. unfold go_member. simpl. unfold field_members. rewrite flat_map_app. simpl.
     rewrite app_nil_r. reflexivity.
   - intros p raw q. rewrite eval_nil. simpl. rewrite render_nil. reflexivity.
+Qed.
+
+(* a bracket index on a list, held directly or behind pointers / interfaces (so: in a map, a struct field, a method
+   result ...), for EVERY integer and both ways of writing it: the element when 0 <= i < length, Nil otherwise -
+   and that is what the same index reaches in Go *)
+Theorem index_any_integer g l c i :
+  opaque_free g = true -> strip g = GSlice l ->
+  eval_step (Some (convert g)) (Idx c i) = ROk (Some (match nth_z l i with Some x => convert x | None => VNil end)) /\
+  go_step g (Idx c i) = nth_z l i /\
+  ((i < 0 \/ Z.of_nat (length l) <= i)%Z -> nth_z l i = None) /\
+  ((0 <= i < Z.of_nat (length l))%Z -> nth_z l i = nth_error l (Z.to_nat i) /\ nth_z l i <> None).
+Proof.
+  intros Ho Hs.
+  assert (Hsim : simple (strip g) = true) by (rewrite Hs; reflexivity).
+  split; [|split; [|split]].
+  - rewrite (conv_simple g Ho Hsim), Hs. simpl. rewrite nth_z_map. destruct (nth_z l i); reflexivity.
+  - unfold go_step. rewrite Hs. reflexivity.
+  - apply nth_z_none.
+  - apply nth_z_some.
+Qed.
+
+(* ... and on a nil list there is no element for any integer *)
+Theorem index_nil_list g c i :
+  opaque_free g = true -> strip g = GSliceNil ->
+  eval_step (Some (convert g)) (Idx c i) = ROk (Some VNil) /\ go_step g (Idx c i) = None.
+Proof.
+  intros Ho Hs.
+  assert (Hsim : simple (strip g) = true) by (rewrite Hs; reflexivity).
+  split.
+  - rewrite (conv_simple g Ho Hsim), Hs. simpl. rewrite nth_z_nil. reflexivity.
+  - unfold go_step. rewrite Hs. reflexivity.
 Qed.
 
 (* ------------------------------------------------------------------ the three listed findings: the full statement is
@@ -829,10 +900,10 @@ Example ex_run_field : run ex_data [Field (B "page"); Field (B "count")] false =
 Proof. vm_compute. reflexivity. Qed.
 
 Example ex_dom_deep :
-  dom_C11 ex_data [Field (B "page"); Field (B "kids"); Idx 1; Field (B "name")] false = true.
+  dom_C11 ex_data [Field (B "page"); Field (B "kids"); Idx false 1; Field (B "name")] false = true.
 Proof. vm_compute. reflexivity. Qed.
 Example ex_run_deep :
-  run ex_data [Field (B "page"); Field (B "kids"); Idx 1; Field (B "name")] false = ROk (B "&lt;k&gt;").
+  run ex_data [Field (B "page"); Field (B "kids"); Idx false 1; Field (B "name")] false = ROk (B "&lt;k&gt;").
 Proof. vm_compute. reflexivity. Qed.
 
 Example ex_dom_method :
@@ -858,27 +929,44 @@ Proof. vm_compute. reflexivity. Qed.
 
 (* the four kinds of absence, all in the domain, all silent *)
 Example ex_dom_nilptr :
-  dom_C11 ex_data [Field (B "page"); Field (B "kids"); Idx 0; Field (B "name")] false = true.
+  dom_C11 ex_data [Field (B "page"); Field (B "kids"); Idx false 0; Field (B "name")] false = true.
 Proof. vm_compute. reflexivity. Qed.
 Example ex_dom_missing_key :
   dom_C11 ex_data [Field (B "page"); Field (B "attrs"); Key (B "zz"); Field (B "x")] true = true.
 Proof. vm_compute. reflexivity. Qed.
 Example ex_dom_range :
-  dom_C11 ex_data [Field (B "page"); Field (B "kids"); Idx 7] false = true.
+  dom_C11 ex_data [Field (B "page"); Field (B "kids"); Idx false 7] false = true.
+Proof. vm_compute. reflexivity. Qed.
+(* below zero, written as a literal and computed (`kids[kids.length - 3]`), far out on both sides, with a tail; on
+   a string; the in-range computed index (`kids[kids.length - 1]`) reaches the element *)
+Definition ex_range_paths : list (list step) :=
+    [[Field (B "page"); Field (B "kids"); Idx false (-1)];
+     [Field (B "page"); Field (B "kids"); Idx true (-1); Field (B "name")];
+     [Field (B "page"); Field (B "kids"); Idx true 2];
+     [Field (B "page"); Field (B "kids"); Idx false (-4000000000000); Field (B "name")];
+     [Field (B "page"); Field (B "kids"); Idx true 4000000000000; Idx false 0];
+     [Field (B "page"); Field (B "title"); Idx true (-1)];
+     [Field (B "page"); Field (B "title"); Idx false 1];
+     [Field (B "page"); Field (B "kids"); Idx true 1; Field (B "name")]].
+Example ex_dom_range_both_sides : forallb (fun p => dom_C11 ex_data p false) ex_range_paths = true.
+Proof. vm_compute. reflexivity. Qed.
+Example ex_run_range_both_sides :
+  map (fun p => run ex_data p false) ex_range_paths
+  = [ROk []; ROk []; ROk []; ROk []; ROk []; ROk []; ROk []; ROk (B "&lt;k&gt;")].
 Proof. vm_compute. reflexivity. Qed.
 Example ex_dom_unexported :
-  dom_C11 ex_data [Field (B "page"); Field (B "kids"); Idx 1; Field (B "hidden")] false = true.
+  dom_C11 ex_data [Field (B "page"); Field (B "kids"); Idx false 1; Field (B "hidden")] false = true.
 Proof. vm_compute. reflexivity. Qed.
 Example ex_dom_undefined :
-  dom_C11 ex_data [Field (B "missing"); Idx 0; Field (B "x")] true = true.
+  dom_C11 ex_data [Field (B "missing"); Idx false 0; Field (B "x")] true = true.
 Proof. vm_compute. reflexivity. Qed.
 Example ex_absent_none :
   map (go_path ex_data)
-    [[Field (B "page"); Field (B "kids"); Idx 0; Field (B "name")];
+    [[Field (B "page"); Field (B "kids"); Idx false 0; Field (B "name")];
      [Field (B "page"); Field (B "attrs"); Key (B "zz"); Field (B "x")];
-     [Field (B "page"); Field (B "kids"); Idx 7];
-     [Field (B "page"); Field (B "kids"); Idx 1; Field (B "hidden")];
-     [Field (B "missing"); Idx 0; Field (B "x")];
+     [Field (B "page"); Field (B "kids"); Idx false 7];
+     [Field (B "page"); Field (B "kids"); Idx false 1; Field (B "hidden")];
+     [Field (B "missing"); Idx false 0; Field (B "x")];
      [Field (B "n"); Field (B "x")]] = [None; None; None; None; None; None].
 Proof. vm_compute. reflexivity. Qed.
 
